@@ -1160,7 +1160,10 @@ fn leaf_mm(
     match a.below(4) {
         0..=2 => {
             let cs = sx(&c);
-            let op = v.update(k2, c, |r, c2| leaf_mv(r, c2, actor, a, t));
+            let op = v.update(k2, c, |r, c2| {
+                t.call("mapmv.update.closure", &[sx(r), sx(&c2)]);
+                leaf_mv(r, c2, actor, a, t)
+            });
             t.call("mapmv.update", &[sx(v), k2.to_string(), cs, sx(&op)]);
             op
         }
@@ -1186,7 +1189,10 @@ fn leaf_mo(
     match a.below(4) {
         0..=2 => {
             let cs = sx(&c);
-            let op = v.update(k2, c, |r, c2| leaf_or(r, c2, actor, a, t));
+            let op = v.update(k2, c, |r, c2| {
+                t.call("mapor.update.closure", &[sx(r), sx(&c2)]);
+                leaf_or(r, c2, actor, a, t)
+            });
             t.call("mapor.update", &[sx(v), k2.to_string(), cs, sx(&op)]);
             op
         }
